@@ -610,6 +610,80 @@ pub fn sweep32<T: Lay>(lo: u32, hi: u32) -> Option<u32> {
     }
 }
 
+// ------------------------------------------------------------------ EncodeLike relations (type-level seam)
+
+/// `EncodeLike<T>` is a promise to generic storage APIs (`fn put<V: EncodeLike<T>>(v: V)`) that `V`'s
+/// bytes are a valid encoding of `T`. The relation is declared by trait impls, so it can only be
+/// observed at a concrete type: the probe below uses autoref-based selection, which picks `ElYes` when
+/// `A: EncodeLike<B>` holds at the expansion site and `ElNo` otherwise. It is therefore expanded by the
+/// `el_check!` macro inside the generated table, once per layout and primitive integer.
+pub struct ElWrap<A, B>(pub core::marker::PhantomData<(A, B)>);
+pub trait ElYes {
+    fn put(&self, bits: u128, out: &mut Vec<u8>) -> bool;
+}
+impl<A: codec::EncodeLike<B> + Elem, B: Encode> ElYes for ElWrap<A, B> {
+    fn put(&self, bits: u128, out: &mut Vec<u8>) -> bool {
+        fn store<V: codec::EncodeLike<B>, B: Encode>(v: &V, out: &mut Vec<u8>) {
+            // what a storage API does with an `EncodeLike<B>` argument
+            v.encode_to(out)
+        }
+        store::<A, B>(&A::fb(bits), out);
+        true
+    }
+}
+pub trait ElNo {
+    fn put(&self, bits: u128, out: &mut Vec<u8>) -> bool;
+}
+impl<A, B> ElNo for &ElWrap<A, B> {
+    fn put(&self, _: u128, _: &mut Vec<u8>) -> bool {
+        false
+    }
+}
+
+/// Bytes stored through a declared relation into a slot of type `S` must decode as `S`, consume
+/// everything, and (same width) carry the same bits.
+pub fn el_verify<S: Elem>(what: &str, bytes: &[u8], bits: u128, peer_wb: usize) -> Option<String> {
+    let mut s: &[u8] = bytes;
+    match S::decode(&mut s) {
+        Ok(_) if !s.is_empty() => Some(format!("{} is declared, but storing through it wrote {} bytes where the slot type takes {} ({} left over)", what, bytes.len(), S::WB, s.len())),
+        Ok(v) => {
+            let mask = if peer_wb.min(S::WB) >= 16 { u128::MAX } else { (1u128 << (8 * peer_wb.min(S::WB))) - 1 };
+            if peer_wb == S::WB && v.tb() & mask != bits & mask {
+                Some(format!("{} is declared, but bits {:#x} stored through it read back as {:#x}", what, bits & mask, v.tb()))
+            } else {
+                None
+            }
+        }
+        Err(e) => Some(format!("{} is declared, but storing through it wrote {} bytes ({:02x?}) which do not decode as the slot type ({} bytes): {}", what, bytes.len(), bytes, S::WB, e)),
+    }
+}
+
+#[macro_export]
+macro_rules! el_check {
+    ($T:ty, $bits:expr) => {{
+        #[allow(unused_imports)]
+        use $crate::lay::{ElNo as _, ElYes as _};
+        let bits: u128 = $bits;
+        let mut found: Option<String> = None;
+        $crate::el_check!(@pair $T, bits, found; i8 i16 i32 i64 i128 u8 u16 u32 u64 u128);
+        found
+    }};
+    (@pair $T:ty, $bits:ident, $found:ident; $($I:ty)*) => {$(
+        if $found.is_none() {
+            let mut out = Vec::<u8>::new();
+            if (&$crate::lay::ElWrap::<$I, $T>(core::marker::PhantomData)).put($bits, &mut out) {
+                $found = $crate::lay::el_verify::<$T>(concat!(stringify!($I), ": EncodeLike<", stringify!($T), ">"), &out, $bits, core::mem::size_of::<$I>());
+            }
+        }
+        if $found.is_none() {
+            let mut out = Vec::<u8>::new();
+            if (&$crate::lay::ElWrap::<$T, $I>(core::marker::PhantomData)).put($bits, &mut out) {
+                $found = $crate::lay::el_verify::<$I>(concat!(stringify!($T), ": EncodeLike<", stringify!($I), ">"), &out, $bits, <$T as $crate::lay::Elem>::WB);
+            }
+        }
+    )*};
+}
+
 // ------------------------------------------------------------------ dispatch table
 
 #[derive(Clone, Copy)]
@@ -632,6 +706,9 @@ pub struct Ops {
     pub sizes: fn(u128) -> (usize, usize, usize),
     pub b1: fn(u128, &[u8]) -> Result<(), String>,
     pub sweep32: fn(u32, u32) -> Option<u32>,
+    /// L1: every declared `EncodeLike` relation between this layout and a primitive integer is honest
+    /// (filled in by the generated table, where the layout is a concrete type)
+    pub el_check: fn(u128) -> Option<String>,
     pub serde: crate::serde_tok::SerdeOps,
     pub meta_check: fn() -> Result<(), String>,
 }
@@ -668,6 +745,7 @@ pub fn ops<T: LayAll>(name: &'static str, fam: u8, frac: u32) -> Ops {
         sizes: sizes::<T>,
         b1: byte_view_algebra::<T>,
         sweep32: sweep32::<T>,
+        el_check: |_| None,
         serde: crate::serde_tok::serde_ops::<T>(),
         meta_check: crate::meta::check_metadata::<T>,
     }
